@@ -387,6 +387,96 @@ let handle (x : sexp) : (string * string) list =
           entries
         | _ -> []) steps in
     if not (teardown_own_b tsteps) then add_spec "C13:teardown_has_cause a trigger context was cancelled by a call of another trigger's updater";
+    (* ---- delivery completeness, completion notice, trigger-context liveness: on the implementation's log alone ----
+       (evaluated for EVERY run, also after the correspondence broke: they use the schedule and the implementation's
+       observables, never the model state).  Membership of a subscriber in a trigger is not observable directly, so the
+       clauses are evaluated for the keys whose history is unambiguous: exactly one trigger with that key was ever
+       created in the run (one Start observation; every other registered subscriber of the key ran its start-up
+       goroutine to the end without a Start call, i.e. it joined), and no subscriber of the key has a scripted failure
+       (hook / Start / Write / Flush / Heartbeat failure, filter error) that removes subscribers on its own.  Then a
+       subscriber s of the key is on that trigger from its registration until one of: a client operation naming it
+       (unsubscribe, removeClient of its connection, cancellation of its request context, CloseSubscription), resolver
+       shutdown, or the end of the trigger (Done).  For such s:
+         delivery_order            an Update(e) that was called after s registered and RETURNED before any of these began
+                                   wrote e to s (if e passes its filter);
+         every_subscriber_completed  a Complete() / Error() of the source that returned in that period reached s's writer;
+         teardown_has_cause        the trigger's context is not observed cancelled in that period -- in particular the
+                                   cancellation of ANOTHER subscriber's request context never cancels it. *)
+    (let fin_step : (string, int) Hashtbl.t = Hashtbl.create 16 in     (* actor -> first step at which it was reported finished *)
+     let ops = ref [] in                                                (* (actor, kind, a, b, step at which it was started) *)
+     let starts = ref [] and cancels = ref [] in
+     let written = Hashtbl.create 16 in
+     List.iteri (fun i0 stx ->
+         let i = i0 + 1 in
+         match stx with
+         | L [what; status; L (A "obs" :: obs); L (A "ch" :: chs)] ->
+           let name = (match what with
+               | L [A "start"; A n; op] ->
+                 (match op with
+                  | L [A "shutdown"] -> ops := (n, "shutdown", 0, 0, i) :: !ops
+                  | L [A k; A a] -> ops := (n, k, int_of_string a, 0, i) :: !ops
+                  | L [A k; A a; A b] -> ops := (n, k, int_of_string a, int_of_string b, i) :: !ops
+                  | _ -> ());
+                 n
+               | L [A "go"; A n] -> n
+               | _ -> "") in
+           let setfin n stt = if parse_status stt = Fin && not (Hashtbl.mem fin_step n) then Hashtbl.replace fin_step n i in
+           setfin name status;
+           List.iter (function L [A n; stt] -> setfin n stt | _ -> ()) chs;
+           List.iter (function
+               | L [A "start"; A s; A k] -> starts := (int_of_string s, int_of_string k) :: !starts
+               | L [A "cancel"; A s] -> cancels := (int_of_string s, i) :: !cancels
+               | L (A "w" :: A s :: A kind :: A e :: _) -> Hashtbl.replace written (int_of_string s, kind, int_of_string e) ()
+               | _ -> ()) obs
+         | _ -> ()) steps;
+     let key_of s = match find_cfg cfgs s with Some c -> c.key | None -> -1 in
+     let clean_key k = List.for_all (fun c -> c.key <> k ||
+                                              ((c.hook = "ok" || c.hook = "emit") && c.start = "ok" && not c.hbfail && c.flt <> 3
+                                               && c.wfail = -1 && c.ffail = -1)) cfgs in
+     let sole_creator a =
+       let k = key_of a in
+       (match List.filter (fun (_, k') -> k' = k) !starts with [(s, _)] -> s = a | _ -> false) &&
+       List.for_all (fun c -> c.key <> k || c.sid = a || not (Hashtbl.mem reg_step c.sid) ||
+                              Hashtbl.mem fin_step ("st:" ^ string_of_int c.sid)) cfgs in
+     let member s a u = key_of s = key_of a && (match Hashtbl.find_opt reg_step s with Some r -> r < u | None -> false) in
+     (* some operation that may remove s, or end / shut down everything, was started at or before step u *)
+     let asked s u =
+       let c = find_cfg cfgs s in
+       List.exists (fun (_, k, a, b, i) ->
+           i <= u &&
+           (match k with
+            | "unsub" | "cancelctx" -> a = s
+            | "rmclient" -> (match c with Some c -> a = c.conn | None -> true)
+            | "close" -> b = s
+            | "shutdown" -> true
+            | _ -> false)) !ops in
+     let ended k u except =
+       List.exists (fun (n, kd, a, _, i) ->
+           i <= u && n <> except && key_of a = k &&
+           (match kd with "complete" | "error" | "done" | "close" -> true | _ -> false)) !ops in
+     let subs_of k = List.filter (fun c -> c.key = k) cfgs in
+     List.iter (fun (n, kd, a, b, u0) ->
+         let k = key_of a in
+         match kd, Hashtbl.find_opt fin_step n with
+         | ("update" | "complete" | "error"), Some u1 when clean_key k && sole_creator a && not (ended k u1 n) ->
+           List.iter (fun c ->
+               let s = c.sid in
+               if member s a u0 && not (asked s u1) then begin
+                 if kd = "update" then begin
+                   if b < 100 && flt_of cfgs (ni s) (ni b) = FPass && not (Hashtbl.mem written (s, "write", b)) then
+                     add_spec (Printf.sprintf "C12:delivery_order subscriber %d never received event %d: Update(%d) of its trigger was called after it had registered and returned (step %d) before anything asked it to leave or ended the trigger, the event passes its filter, and no Write of it was made" s b b u1)
+                 end else if not (Hashtbl.mem written (s, kd, 0)) then
+                   add_spec (Printf.sprintf "C13:every_subscriber_completed the source's %s of the trigger returned (step %d) while subscriber %d was subscribed and nothing had asked it to leave, but its writer was never told (no %s call): the subscriber is never completed"
+                               (if kd = "complete" then "Complete()" else "Error()") u1 s (if kd = "complete" then "Complete" else "Error"))
+               end) (subs_of k)
+         | _ -> ()) (List.rev !ops);
+     List.iter (fun (a, i) ->
+         let k = key_of a in
+         if clean_key k && sole_creator a && not (ended k i "") then
+           List.iter (fun c ->
+               if member c.sid a i && not (asked c.sid i) then
+                 add_spec (Printf.sprintf "C13:teardown_has_cause the context of the trigger started by subscriber %d is cancelled (step %d) while subscriber %d is still on it: nothing asked %d to leave, the source did not end the trigger, the resolver was not shut down -- another subscriber's departure tore the shared trigger down"
+                             a i c.sid c.sid)) (subs_of k)) (List.rev !cancels));
     (* The quiescence clauses need the premise of the theorems: nothing can move any more, and the resolver was shut
        down or every registered subscriber was asked to leave by its client or the source of ITS trigger said Done /
        failed to start.  "Asked by the client" is read off the schedule (the removal region of an unsubscribe /
